@@ -21,7 +21,8 @@ LEVEL_TEXT = (
     "Bounded exploration: generated well-typed programs over the SQL engine and two iteration engines; at a drawn "
     "intermediate relation one request is made ill-formed by exactly one edit (missing column in a calculation / sort "
     "term / selection / join predicate / projection, re-used calculation tag, chain operands with different columns or "
-    "engines, join across engines with neither backtracking nor transfer, expression unsupported by the engine, slice "
+    "engines, join across engines with neither backtracking nor transfer (or with default options, where only EngineError / "
+    "ColumnError or a well-formed tree holding both operands' columns is acceptable), expression unsupported by the engine, slice "
     "negative / reversed / stepped / not a slice) and issued with drawn preferred-engine options.  The call must raise "
     "the documented class and leave every existing relation's fingerprint unchanged."
 )
